@@ -78,6 +78,68 @@ def pushed_variants(b):
     return out
 
 
+def rollback_arms(fa):
+    arms = {}
+    rb = fa.body(DB + "rollback")
+    if rb:
+        for m in fa.matches(rb.path):
+            if m["scrut_ty"].endswith("agdb::command::Command"):
+                for a in m["arms"]:
+                    if a["p"].get("path"):
+                        arms[a["p"]["path"].split("::")[-1]] = {common.norm(c) for c in a["body"]["calls"]}
+    return arms
+
+
+def undo_order_rule(ctx, arms=None, rule="R13f"):
+    """Undo commands are replayed newest-first, so within one function they must be recorded in the order of the
+    mutations they undo: if mutation m1 always precedes m2, the command undoing m1 must be pushed before the one
+    undoing m2 (otherwise rollback first re-creates a binding and then deletes it again)."""
+    fa = ctx.facts
+    arms = arms if arms is not None else rollback_arms(fa)
+    n = 0
+    for b in sorted(fa.find(r"^agdb::db::DbImpl::[a-z_]+$"), key=lambda x: x.line):
+        name = common.norm(b.npath)
+        if name == DB + "rollback" or b.d["argc"] < 1 or not b.local_ty(1).startswith("&mut agdb::db::DbImpl"):
+            continue
+        pushes = [(i, v) for i, v in pushed_variants(b) if v]
+        muts = self_mutator_calls(b)
+        if len(pushes) < 2 or not muts:
+            continue
+        pblocks = [i for i, v in pushes]
+
+        def reach(a, c):
+            return cfg.find_path(b, [a], [c], leave_start=True) is not None
+        assoc = {}
+        for pi, v in pushes:
+            cands = [mi for mi, t, f, cal in muts if INVERSE.get(cal, set()) & arms.get(v, set())]
+            others = [x for x in pblocks if x != pi]
+            fwd = [mi for mi in cands if cfg.find_path(b, [pi], [mi], avoid=others, leave_start=True) is not None]
+            bwd = [mi for mi in cands if cfg.find_path(b, [mi], [pi], avoid=others, leave_start=True) is not None]
+            assoc[pi] = set(fwd or bwd)
+        for p1, v1 in pushes:
+            for p2, v2 in pushes:
+                if p1 >= p2 or not assoc[p1] or not assoc[p2] or (assoc[p1] & assoc[p2]):
+                    continue
+                # strict order of the mutations (both directions reachable = loop: skip)
+                m12 = all(reach(a, c) and not reach(c, a) for a in assoc[p1] for c in assoc[p2])
+                m21 = all(reach(c, a) and not reach(a, c) for a in assoc[p1] for c in assoc[p2])
+                if not (m12 or m21):
+                    continue
+                n += 1
+                first, second = (p1, p2) if m12 else (p2, p1)
+                ok = reach(first, second) and not reach(second, first)
+                # pushes on exclusive branches are unordered: fine
+                if not reach(first, second) and not reach(second, first):
+                    ok = True
+                vf, vs = dict(pushes)[first], dict(pushes)[second]
+                ctx.ob(rule, "%s:%s-before-%s" % (name, vf, vs), ok,
+                       "undo commands are recorded in the order of their mutations" if ok else
+                       "in `%s` the undo command %s is pushed after %s although its mutation comes first: rollback (newest "
+                       "first) would undo them in the wrong order" % (name, vf, vs), b.loc(first),
+                       key="%s|%s|%s|%s-before-%s" % (ctx.pid, rule, name, vf, vs))
+    ctx.floor(rule, "ordered (push, mutation) pairs", n, 2)
+
+
 def run(ctx):
     fa = ctx.facts
     rb = ctx.anchor("R13a", DB + "rollback")
@@ -195,6 +257,7 @@ def run(ctx):
                        name, pv, sorted(x.split("::")[-1] for x in inv)), b.loc(i),
                    key="%s|R13c|%s|%s.%s" % (ctx.pid, name, field, cal.split("::")[-1]))
     ctx.floor("R13b", "mutator calls in DbImpl methods", n_mut, 20)
+    undo_order_rule(ctx, arms)
 
     # R13d
     n_ins = 0
